@@ -99,22 +99,36 @@ def canon_state(st):
     return head + ' rows=' + ';'.join(out) + ' files=' + ';'.join(sorted(fmap.values()))
 
 
-def candidate_orders(events, programs):
-    """all total orders of the completed calls consistent with program order and real time"""
+def candidate_orders(events, programs, units=None):
+    """all total orders of the completed calls consistent with program order and real time.
+    `units`: per client, lists of op indices that form ONE step of the explanation (a
+    transaction block); default: every call is its own unit."""
     call, ret = {}, {}
     for step, cid, kind, i, res in events:
         (call if kind == 'call' else ret)[(cid, i)] = step
-    ops = [(cid, i) for cid in sorted(programs) for i in range(len(programs[cid])) if (cid, i) in ret]
+    if units is None:
+        units = {cid: [[i] for i in range(len(programs[cid]))] for cid in programs}
+    us = []
+    ucall, uret = {}, {}
+    for cid in sorted(programs):
+        for n, idxs in enumerate(units[cid]):
+            done = [i for i in idxs if (cid, i) in ret]
+            if not done:
+                continue
+            u = (cid, n)
+            us.append(u)
+            ucall[u] = call[(cid, done[0])]
+            uret[u] = ret[(cid, done[-1])]
 
     def before(a, b):
         if a[0] == b[0]:
             return a[1] < b[1]
-        return ret[a] < call[b]
+        return uret[a] < ucall[b]
     out = []
-    for perm in itertools.permutations(ops):
+    for perm in itertools.permutations(us):
         pos = {o: n for n, o in enumerate(perm)}
-        if all(not before(b, a) for a in ops for b in ops if pos[a] < pos[b]):
-            out.append(list(perm))
+        if all(not before(b, a) for a in us for b in us if pos[a] < pos[b]):
+            out.append([(u[0], i) for u in perm for i in units[u[0]][u[1]] if (u[0], i) in ret])
     return out, call, ret
 
 
@@ -132,11 +146,11 @@ def overlaps_write(o, order_ops, call, ret, op_of):
     return False
 
 
-def explain(run, programs, cfg):
+def explain(run, programs, cfg, units=None):
     """-> None if some candidate order explains the run on the Lean model, else a description"""
     if not run['ok']:
         return 'the run did not terminate within the step bound (livelock or deadlock)'
-    orders, call, ret = candidate_orders(run['events'], programs)
+    orders, call, ret = candidate_orders(run['events'], programs, units)
     op_of = {(cid, i): programs[cid][i] for cid in programs for i in range(len(programs[cid]))}
     got = {}
     linemap = {}
